@@ -1,2 +1,317 @@
-/* placeholder; replaced by the real shim together with the cli engine */
-int grass_sim_faultshim_placeholder;
+/* faultshim.so — LD_PRELOADed into the real `grass` binary by the cli engine.
+ *
+ * Interposes read, write, open, open64, openat, openat64, close, getrandom.
+ * Every intercepted call is classified by stream:
+ *    fd0 fd1 fd2           the standard streams
+ *    @<path>               a file opened by this process (full path as passed)
+ * and counted per (call, class).  A fault plan in VERIF_FAULT_PLAN,
+ *    <call>:<class>:<nth>:<action>[;<call>:<class>:<nth>:<action>...]
+ * alters the nth (0-based) call of that kind on that class; a class written
+ * as `@*suffix` matches any path ending in `suffix`. Actions:
+ *    EINTR        fail once with EINTR (the caller's retry then succeeds)
+ *    short<k>     perform the real call with the count reduced to k (k>=1)
+ *    E<NAME>      fail with that errno (ENOSPC EIO EPIPE EACCES ENOENT EISDIR EMFILE EBADF EAGAIN)
+ * Every intercepted call is appended to the file named by VERIF_SHIM_LOG:
+ *    <call> <class> <nth> <requested> <result> <errno> <action-or-->
+ * getrandom() is answered from a SplitMix64 stream seeded by VERIF_SHIM_SEED
+ * (if set), so that the binary's hash keys are a function of the case.
+ */
+#define _GNU_SOURCE
+#include <dlfcn.h>
+#include <errno.h>
+#include <fcntl.h>
+#include <stdarg.h>
+#include <stdint.h>
+#include <stdio.h>
+#include <stdlib.h>
+#include <string.h>
+#include <sys/syscall.h>
+#include <sys/types.h>
+#include <unistd.h>
+
+#define MAXFD 256
+#define MAXPLAN 16
+#define MAXCLS 64
+
+static char fd_path[MAXFD][256];
+static int log_fd = -1;
+static int inited = 0;
+static int in_shim = 0;
+
+struct plan_ent {
+  char call[8];
+  char cls[256];
+  long nth;
+  char action[24];
+  int used;
+};
+static struct plan_ent plan[MAXPLAN];
+static int nplan = 0;
+
+struct counter {
+  char call[8];
+  char cls[256];
+  long n;
+};
+static struct counter counters[MAXCLS];
+static int ncounters = 0;
+
+static uint64_t rng_state = 0;
+static int rng_on = 0;
+
+static ssize_t raw_write(int fd, const void *b, size_t n) { return syscall(SYS_write, fd, b, n); }
+
+static void init(void) {
+  if (inited) return;
+  inited = 1;
+  const char *lp = getenv("VERIF_SHIM_LOG");
+  if (lp && *lp) {
+    log_fd = syscall(SYS_openat, AT_FDCWD, lp, O_WRONLY | O_CREAT | O_APPEND | O_CLOEXEC, 0644);
+    if (log_fd >= 0 && log_fd < 100) {
+      /* move it out of the way of the program's own descriptors */
+      int nfd = syscall(SYS_fcntl, log_fd, F_DUPFD_CLOEXEC, 200);
+      if (nfd >= 0) {
+        syscall(SYS_close, log_fd);
+        log_fd = nfd;
+      }
+    }
+  }
+  const char *sd = getenv("VERIF_SHIM_SEED");
+  if (sd && *sd) {
+    rng_state = strtoull(sd, NULL, 10);
+    rng_on = 1;
+  }
+  const char *p = getenv("VERIF_FAULT_PLAN");
+  if (p && *p) {
+    char buf[2048];
+    strncpy(buf, p, sizeof buf - 1);
+    buf[sizeof buf - 1] = 0;
+    char *save = NULL;
+    for (char *ent = strtok_r(buf, ";", &save); ent && nplan < MAXPLAN; ent = strtok_r(NULL, ";", &save)) {
+      /* call:class:nth:action  — class may contain ':'? paths here never do */
+      char *a = strchr(ent, ':');
+      if (!a) continue;
+      *a++ = 0;
+      char *c = strrchr(a, ':');
+      if (!c) continue;
+      *c++ = 0;
+      char *b = strrchr(a, ':');
+      if (!b) continue;
+      *b++ = 0;
+      struct plan_ent *e = &plan[nplan++];
+      strncpy(e->call, ent, sizeof e->call - 1);
+      strncpy(e->cls, a, sizeof e->cls - 1);
+      e->nth = atol(b);
+      strncpy(e->action, c, sizeof e->action - 1);
+      e->used = 0;
+    }
+  }
+}
+
+static void classify(int fd, char *out, size_t n) {
+  if (fd >= 0 && fd <= 2) {
+    snprintf(out, n, "fd%d", fd);
+  } else if (fd >= 0 && fd < MAXFD && fd_path[fd][0]) {
+    snprintf(out, n, "@%s", fd_path[fd]);
+  } else {
+    snprintf(out, n, "fd?");
+  }
+}
+
+static long bump(const char *call, const char *cls) {
+  for (int i = 0; i < ncounters; i++)
+    if (!strcmp(counters[i].call, call) && !strcmp(counters[i].cls, cls)) return counters[i].n++;
+  if (ncounters < MAXCLS) {
+    struct counter *c = &counters[ncounters++];
+    strncpy(c->call, call, sizeof c->call - 1);
+    strncpy(c->cls, cls, sizeof c->cls - 1);
+    c->n = 1;
+    return 0;
+  }
+  return -1;
+}
+
+static int cls_match(const char *pat, const char *cls) {
+  if (pat[0] == '@' && pat[1] == '*') {
+    const char *suf = pat + 2;
+    size_t ls = strlen(suf), lc = strlen(cls);
+    return cls[0] == '@' && lc >= ls && !strcmp(cls + lc - ls, suf);
+  }
+  return !strcmp(pat, cls);
+}
+
+static const char *find_action(const char *call, const char *cls, long nth) {
+  for (int i = 0; i < nplan; i++)
+    if (!plan[i].used && !strcmp(plan[i].call, call) && plan[i].nth == nth && cls_match(plan[i].cls, cls)) {
+      plan[i].used = 1;
+      return plan[i].action;
+    }
+  return NULL;
+}
+
+static int errno_of(const char *a) {
+  if (!strcmp(a, "ENOSPC")) return ENOSPC;
+  if (!strcmp(a, "EIO")) return EIO;
+  if (!strcmp(a, "EPIPE")) return EPIPE;
+  if (!strcmp(a, "EACCES")) return EACCES;
+  if (!strcmp(a, "ENOENT")) return ENOENT;
+  if (!strcmp(a, "EISDIR")) return EISDIR;
+  if (!strcmp(a, "EMFILE")) return EMFILE;
+  if (!strcmp(a, "EBADF")) return EBADF;
+  if (!strcmp(a, "EAGAIN")) return EAGAIN;
+  if (!strcmp(a, "EINTR")) return EINTR;
+  return EIO;
+}
+
+static void logline(const char *call, const char *cls, long nth, long req, long res, int err, const char *action) {
+  if (log_fd < 0) return;
+  char b[640];
+  int n = snprintf(b, sizeof b, "%s %s %ld %ld %ld %d %s\n", call, cls, nth, req, res, err, action ? action : "-");
+  if (n > 0) raw_write(log_fd, b, (size_t)n);
+}
+
+ssize_t read(int fd, void *buf, size_t count) {
+  init();
+  if (in_shim || fd == log_fd) return syscall(SYS_read, fd, buf, count);
+  char cls[300];
+  classify(fd, cls, sizeof cls);
+  long nth = bump("read", cls);
+  const char *a = find_action("read", cls, nth);
+  ssize_t r;
+  if (a && !strncmp(a, "short", 5)) {
+    size_t k = (size_t)atol(a + 5);
+    if (k < 1) k = 1;
+    r = syscall(SYS_read, fd, buf, count < k ? count : k);
+  } else if (a) {
+    errno = errno_of(a);
+    r = -1;
+  } else {
+    r = syscall(SYS_read, fd, buf, count);
+  }
+  int e = errno;
+  logline("read", cls, nth, (long)count, (long)r, r < 0 ? e : 0, a);
+  errno = e;
+  return r;
+}
+
+ssize_t write(int fd, const void *buf, size_t count) {
+  init();
+  if (in_shim || fd == log_fd) return syscall(SYS_write, fd, buf, count);
+  char cls[300];
+  classify(fd, cls, sizeof cls);
+  long nth = bump("write", cls);
+  const char *a = find_action("write", cls, nth);
+  ssize_t r;
+  if (a && !strncmp(a, "short", 5)) {
+    size_t k = (size_t)atol(a + 5);
+    if (k < 1) k = 1;
+    r = syscall(SYS_write, fd, buf, count < k ? count : k);
+  } else if (a) {
+    errno = errno_of(a);
+    r = -1;
+  } else {
+    r = syscall(SYS_write, fd, buf, count);
+  }
+  int e = errno;
+  logline("write", cls, nth, (long)count, (long)r, r < 0 ? e : 0, a);
+  errno = e;
+  return r;
+}
+
+static int do_open(int dirfd, const char *path, int flags, mode_t mode) {
+  init();
+  if (in_shim) return syscall(SYS_openat, dirfd, path, flags, mode);
+  char cls[300];
+  snprintf(cls, sizeof cls, "@%s", path ? path : "");
+  long nth = bump("open", cls);
+  const char *a = find_action("open", cls, nth);
+  int r;
+  if (a && strcmp(a, "EINTR") && strncmp(a, "short", 5)) {
+    errno = errno_of(a);
+    r = -1;
+  } else if (a && !strcmp(a, "EINTR")) {
+    errno = EINTR;
+    r = -1;
+  } else {
+    r = syscall(SYS_openat, dirfd, path, flags, mode);
+  }
+  int e = errno;
+  if (r >= 0 && r < MAXFD && path) {
+    strncpy(fd_path[r], path, sizeof fd_path[r] - 1);
+    fd_path[r][sizeof fd_path[r] - 1] = 0;
+  }
+  logline("open", cls, nth, (long)flags, (long)r, r < 0 ? e : 0, a);
+  errno = e;
+  return r;
+}
+
+int open(const char *path, int flags, ...) {
+  mode_t mode = 0;
+  if (flags & (O_CREAT | O_TMPFILE)) {
+    va_list ap;
+    va_start(ap, flags);
+    mode = va_arg(ap, mode_t);
+    va_end(ap);
+  }
+  return do_open(AT_FDCWD, path, flags, mode);
+}
+
+int open64(const char *path, int flags, ...) {
+  mode_t mode = 0;
+  if (flags & (O_CREAT | O_TMPFILE)) {
+    va_list ap;
+    va_start(ap, flags);
+    mode = va_arg(ap, mode_t);
+    va_end(ap);
+  }
+  return do_open(AT_FDCWD, path, flags | O_LARGEFILE, mode);
+}
+
+int openat(int dirfd, const char *path, int flags, ...) {
+  mode_t mode = 0;
+  if (flags & (O_CREAT | O_TMPFILE)) {
+    va_list ap;
+    va_start(ap, flags);
+    mode = va_arg(ap, mode_t);
+    va_end(ap);
+  }
+  return do_open(dirfd, path, flags, mode);
+}
+
+int openat64(int dirfd, const char *path, int flags, ...) {
+  mode_t mode = 0;
+  if (flags & (O_CREAT | O_TMPFILE)) {
+    va_list ap;
+    va_start(ap, flags);
+    mode = va_arg(ap, mode_t);
+    va_end(ap);
+  }
+  return do_open(dirfd, path, flags | O_LARGEFILE, mode);
+}
+
+int close(int fd) {
+  init();
+  if (fd == log_fd) return 0; /* keep the log reachable */
+  if (fd >= 0 && fd < MAXFD) fd_path[fd][0] = 0;
+  return syscall(SYS_close, fd);
+}
+
+static uint64_t splitmix(void) {
+  uint64_t z = (rng_state += 0x9E3779B97F4A7C15ULL);
+  z = (z ^ (z >> 30)) * 0xBF58476D1CE4E5B9ULL;
+  z = (z ^ (z >> 27)) * 0x94D049BB133111EBULL;
+  return z ^ (z >> 31);
+}
+
+ssize_t getrandom(void *buf, size_t buflen, unsigned int flags) {
+  init();
+  if (!rng_on) return syscall(SYS_getrandom, buf, buflen, flags);
+  unsigned char *p = buf;
+  for (size_t i = 0; i < buflen; i++) {
+    if (i % 8 == 0) {
+      uint64_t v = splitmix();
+      memcpy(p + i, &v, buflen - i < 8 ? buflen - i : 8);
+    }
+  }
+  return (ssize_t)buflen;
+}
